@@ -5,7 +5,7 @@
 //  1. round trip: the full product of small per-field menus of well-formed values of every header type;
 //     Unmarshal(Marshal(v)) = v, Marshal(v) twice identical, v unchanged;
 //  2. determinism under map iteration order: the build overlay (checks/c09/overlay.py) puts every
-//     `for k, v := range kvs` of the parsers under the control of headers.VerifOrder; every parser input
+//     range over a map in pkg/headers (sortedKeys or a parser loop) under the control of headers.VerifOrder; every parser input
 //     made of <= 4 key fragments (valid, invalid, conflicting, duplicated, unknown) is parsed under all k!
 //     visiting orders of its keys, 3 times per order; all results (value or error text) must be identical;
 //  3. totality: all truncations and all <= 2 substitutions (quick: 1) from a hostile byte menu of a
@@ -123,33 +123,36 @@ func main() {
 		"KEMAC with >= 1 sub-payload, RAND >= 16 bytes, lengths that fit their length fields, SPI only with KV=SPI, the single supported value of every MIKEY enum; Authenticate/Authorization set only the fields of their method")
 	run.Assume("NPT: the statement quantifies over millisecond resolution; every whole-millisecond Duration must come back exactly (class npt-ms = came back 1 ns short, npt-ms-gross = any other difference)")
 	run.Assume("on a parse error only the error text is compared (the partly filled value is not part of the result)")
-	run.Assume("key order: the overlay replaces `for k, v := range kvs` by iteration over verifKeys(kvs); with VerifOrder=nil that is Go's native map order (round-trip phase), otherwise the order chosen by the harness. " +
+	run.Assume("key order: the overlay (checks/c09/vmaprw, go/types) replaces every range over a map in pkg/headers - the loop in sortedKeys as well as `for k, v := range kvs` in a parser - by iteration over verifKeys(m); with VerifOrder=nil that is Go's native map order (round-trip phase), otherwise the order chosen by the harness. " +
 		"One round applies the same permutation index to every key list of an input (entries of a list header are parsed by independent loop executions)")
 
-	// which parser files are under control of the overlay?
+	// Every range over a map in pkg/headers is under the control of VerifOrder (the rewriter classifies the operand
+	// of every range statement by type and fails on anything it cannot classify or rewrite), so the key orders of every
+	// parser are owned by the harness, whichever loop shape the library currently has.
+	if headers.VerifC09Error != "" {
+		run.Fatal("overlay: the map ranges of pkg/headers could not be put under VerifOrder: %s", headers.VerifC09Error)
+	}
 	enumerated := map[string]bool{}
 	mode := map[string]string{}
+	consulted := 0
 	for _, c := range allCodecs {
 		if c.file == "" {
 			continue
 		}
-		n, ok := headers.VerifC09Rewritten[c.file]
-		switch {
-		case ok && n < 0:
-			run.Fatal("overlay: %s ranges over the map returned by keyValParse in a form checks/c09/overlay.py cannot put under the control of VerifOrder; update overlay.py (the expected form is `for k, v := range kvs {`)", c.file)
-		case ok && n > 0:
-			// the hook must really be live
-			_, _, _, ord := parseRecorded(c, liveProbe[c.name], 0)
-			if len(ord) == 0 {
-				run.Fatal("overlay: %s was rewritten but VerifOrder is not consulted when parsing %q", c.file, liveProbe[c.name])
-			}
-			enumerated[c.name] = true
-			mode[c.name] = fmt.Sprintf("enumerated (%d loop(s) of %s under VerifOrder)", n, c.file)
-		default:
-			mode[c.name] = "repetition (no range over the keyValParse result in " + c.file + "; 256 native parses per input)"
-			run.Cap("key orders of " + c.name + " not enumerated: " + c.file + " has no range-over-map on the keyValParse result; tested by 256 repetitions of the native code")
+		enumerated[c.name] = true
+		_, _, _, ord := parseRecorded(c, liveProbe[c.name], 0)
+		if len(ord) > 0 {
+			consulted++
+			mode[c.name] = "enumerated: key order chosen through VerifOrder"
+		} else {
+			mode[c.name] = "no map iteration reached when parsing " + liveProbe[c.name]
 		}
 	}
+	if len(headers.VerifC09Sites) > 0 && consulted == 0 {
+		run.Fatal("overlay: %d map range(s) rewritten (%v) but VerifOrder is never consulted by any parser", len(headers.VerifC09Sites), headers.VerifC09Sites)
+	}
+	run.Set("map_ranges_under_VerifOrder", headers.VerifC09Sites)
+	run.Set("range_statements_classified", headers.VerifC09Ranges)
 	setNative()
 	run.Set("key_order_mode", mode)
 
